@@ -1008,3 +1008,8 @@ silent('C10', 'sink-cancel-loop-over-a-copy-then-clears',
                          lambda q: M.insert_after(q, N_SNK, 'Sink.behaviour', M.stmt_calling('.reserve_get_cancel'), 'self.in_edge_events.remove(event)'),
                          lambda q: M.replace_node(q, N_SNK, 'Sink.behaviour', lambda n: isinstance(n, ast.For) and 'reserve_get_cancel' in ast.unparse(n),
                                                   sub('for event in self.in_edge_events:', 'for event in list(self.in_edge_events):'))))
+
+# ---- C14.R2: one suspension per activation cycle (seed C14-c)
+fire('C14', 'activation-waits-for-the-trip (seed C14-c)', 'C14.R2', 'wait-set-and-departure',
+     lambda p: M.replace_node(p, S_FLT, 'FleetStore.fleet_activation_process', M.stmt_calling('self.env.process', 'move_to_ready_items'),
+                              lambda s: 'yield ' + s))
